@@ -178,3 +178,31 @@ Definition o_res (r : res pyval) : pyval :=
   | Unmodelled => o_str "unmodelled"
   end.
 Definition o_opt (o : option pyval) : pyval := match o with Some v => v | None => PNone end.
+
+(* ---- order-insensitive comparison of maps: sort every dict by its (string) keys ---- *)
+Fixpoint str_ltb (a b : str) : bool :=
+  match a, b with
+  | [], [] => false
+  | [], _ :: _ => true
+  | _ :: _, [] => false
+  | x :: xs, y :: ys => if (x <? y)%N then true else if (y <? x)%N then false else str_ltb xs ys
+  end.
+Definition key_ltb (a b : pyval) : bool :=
+  match a, b with PStr x, PStr y => str_ltb x y | _, _ => false end.
+Fixpoint insert_kv (kv : pyval * pyval) (l : list (pyval * pyval)) : list (pyval * pyval) :=
+  match l with
+  | [] => [kv]
+  | h :: r => if key_ltb (fst kv) (fst h) then kv :: h :: r else h :: insert_kv kv r
+  end.
+Fixpoint sort_dicts (v : pyval) : pyval :=
+  match v with
+  | PList t l => PList t (map sort_dicts l)
+  | PTuple l => PTuple (map sort_dicts l)
+  | PDict t d =>
+      PDict t ((fix go (d : list (pyval * pyval)) : list (pyval * pyval) :=
+                  match d with
+                  | [] => []
+                  | (k, x) :: r => insert_kv (k, sort_dicts x) (go r)
+                  end) d)
+  | _ => v
+  end.
